@@ -1,5 +1,5 @@
 (* C19 -- Partition metadata stays aligned with array axes through boxing and transforms. *)
-From Flaxm Require Import Lib.Harness Model.Partition Proofs.Partition.
+From Flaxm Require Import Lib.Harness Model.Partition Proofs.Partition Model.StateAxesMeta Proofs.StateAxesMeta.
 
 (* stacking a rank-r variable along axis k (any k in [-(r+1), r]) gives names with one entry per dimension and
    the declared partition name at exactly the position where the array gained its axis *)
@@ -55,3 +55,24 @@ Example C19_example :
   logical_to_mesh [Some 1; None; Some 2; Some 3]%N [(1, [10]); (3, [10]); (2, [11; 12]); (1, [13])]%N
   = Some [EMesh [10%N]; ENone; EMesh [11; 12]%N; EUnassigned].
 Proof. vm_compute. reflexivity. Qed.
+
+(* NNX transform_metadata with a StateAxes (Model/StateAxesMeta.v): under nnx.vmap (one substate per filter) and under nnx.scan
+   (only the vectorized substates are kept) every substate whose filter has an integer axis gets the partition name added /
+   removed at THAT axis and every other substate is left alone -- wherever the broadcast / carry filters stand *)
+Theorem C19_stateaxes_vmap : forall S (axis_fn : S -> Z -> S) states axes, length states = length axes ->
+  update_meta S axis_fn states axes = spec_update S axis_fn states axes.
+Proof. exact vmap_update. Qed.
+Print Assumptions C19_stateaxes_vmap.
+Theorem C19_stateaxes_scan : forall S (axis_fn : S -> Z -> S) per_filter axes placeholder, length per_filter = length axes ->
+  let vec := filter (fun sa => is_int (snd sa)) (combine per_filter axes) in
+  vec <> [] -> length vec <> length axes \/ Forall (fun a => is_int a = true) axes ->
+  update_meta S axis_fn (scan_states S per_filter axes placeholder) axes =
+  map (fun sa => match snd sa with SAInt k => axis_fn (fst sa) k | _ => fst sa end) vec.
+Proof. exact scan_update. Qed.
+Print Assumptions C19_stateaxes_scan.
+(* the pairing before the fix (F34) left the vectorized substate untouched when a broadcast filter came first *)
+Example C19_stateaxes_scan_old_refuted :
+  let f := fun (s : Z) (k : Z) => (s + 100 * (k + 1))%Z in
+  update_meta_old Z f (scan_states Z [7; 8]%Z [SANone; SAInt 1] 0%Z) [SANone; SAInt 1] = [8%Z] /\
+  update_meta Z f (scan_states Z [7; 8]%Z [SANone; SAInt 1] 0%Z) [SANone; SAInt 1] = [208%Z].
+Proof. exact scan_update_old_refuted. Qed.
